@@ -21,7 +21,8 @@ def plan(tier):
 
 
 def strategy(tier):
-    return st.one_of(machine_spec("suspend", tier), machine_spec("suspend", tier), machine_spec("general", tier))
+    return st.one_of(machine_spec("suspend", tier), machine_spec("suspend", tier), machine_spec("general", tier),
+                     machine_spec("twins", tier))
 
 
 run_case = make_run_case({"C10"}, lambda o: "rerun_after_suspension_succeeded" in o.labels
